@@ -40,13 +40,13 @@ MonInit(p) == [err |-> "", blocked |-> FALSE]
 \* any input event wakes the loop
 MonIn(m, r) == [m EXCEPT !.blocked = FALSE]
 
+MsgGapOutput == "C07 gap-output: a tick taken where the loop may block produced output"
+MsgGapWakes == "C07 gap-wakes: the may-block decision was withdrawn by the passage of time alone"
+MsgNotIdle == "C07 block-not-idle: may-block although not idle"
 JudgeTick(m, silent, idle, cb) ==
-  IF m.blocked /\ ~silent
-  THEN Fail(m, "C07 gap-output: a tick taken where the loop may block produced output")
-  ELSE IF m.blocked /\ ~cb
-  THEN Fail(m, "C07 gap-wakes: the may-block decision was withdrawn by the passage of time alone")
-  ELSE IF cb /\ ~idle
-  THEN Fail(m, "C07 block-not-idle: may-block although not idle")
+  IF m.blocked /\ ~silent THEN Fail(m, MsgGapOutput)
+  ELSE IF m.blocked /\ ~cb THEN Fail(m, MsgGapWakes)
+  ELSE IF cb /\ ~idle THEN Fail(m, MsgNotIdle)
   ELSE [m EXCEPT !.blocked = cb]
 
 MonTick(m, out, idle, cb) == JudgeTick(m, out = <<>>, idle, cb)
@@ -84,6 +84,16 @@ CanonRec(lane, i, idx, off, down, norm, acc) ==
 
 Canon(lane, down, norm) == CanonRec(lane, 1, 0, 0, down, norm, <<>>)
 
+\* the one-behaviour monitor (1) folded over a recorded lane
+RECURSIVE LaneMon(_, _, _)
+LaneMon(lane, i, m) ==
+  IF i > Len(lane) \/ m.err # "" THEN m
+  ELSE LET r == lane[i] IN
+       LaneMon(lane, i + 1,
+               CASE r.e = "t" -> IF r.n = 1 THEN MonTick(m, r.out, r.idle, r.cb) ELSE MonSilent(m, r.n, r.idle, r.cb)
+                 [] IsInputRec(r) -> MonIn(m, r)
+                 [] OTHER -> m)
+
 \* the K ticks of lane A
 GapNoisy(gap) == \E i \in DOMAIN gap : gap[i].e # "t" \/ gap[i].out # <<>>
 GapWakes(gap) == \E i \in DOMAIN gap : gap[i].e = "t" /\ (~gap[i].cb \/ ~gap[i].idle)
@@ -101,11 +111,13 @@ PairErr(r) ==
   LET down == SeqToSet(r.down)
       ca == Canon(r.A, down, TRUE)
       cb == Canon(r.B, down, TRUE)
+      \* whole-history pairs: lane A is a complete behaviour of the ticking stepper, judged by (1) as well (an output
+      \* in a may-block gap also shows as a divergence from the blocking stepper and is reported as such)
+      ma == IF r.mode = "gap" THEN MonInit(0) ELSE LaneMon(r.A, 1, MonInit(0))
   IN IF GapNoisy(r.gap)
-     THEN "C07 gap-output: a tick taken where the loop may block produced output (or the code died): "
-          \o ToString(Canon(r.gap, down, FALSE))
-     ELSE IF GapWakes(r.gap)
-     THEN "C07 gap-wakes: the may-block decision was withdrawn by the passage of time alone"
+     THEN MsgGapOutput \o " (or the code died): " \o ToString(Canon(r.gap, down, FALSE))
+     ELSE IF GapWakes(r.gap) THEN MsgGapWakes
+     ELSE IF ma.err \in {MsgGapWakes, MsgNotIdle} THEN ma.err
      ELSE IF GapLen(r.gap) # r.K
      THEN "C07 gap-short: lane A executed " \o ToString(GapLen(r.gap)) \o " of " \o ToString(r.K) \o " ticks"
      ELSE IF ca # cb
